@@ -450,6 +450,10 @@ func (propC14) Gen(r *Rng, run uint64, tier string) *Plan {
 			f.Event = -(1 + fr.Intn(1_000_000)) // relative; resolved against the twin's event count
 		case FaultOpenLatency:
 			f.DelayMs = 1 + fr.Intn(5000)
+		case FaultOpenError:
+			// the daemon's typed errors: "no such container" (removed since the listing),
+			// "logging driver does not support reading"
+			f.ErrKind = []string{"", "", "not_found", "not_implemented"}[fr.Intn(4)]
 		case FaultCloseError:
 			// Close of this reader reports an error: every other reader must still be closed.
 			p.Tags["pos"] = "close"
